@@ -298,6 +298,16 @@ func (t *Trans) execInstr(fr *Frame, in ssa.Instruction) {
 			}
 		}
 		t.safeDeref(fr, x.Addr, x.Pos())
+		if fa, ok := x.Addr.(*ssa.FieldAddr); ok {
+			if _, isFn := elem.Underlying().(*types.Signature); isFn {
+				st := fa.X.Type().Underlying().(*types.Pointer).Elem()
+				if cb := t.P.cbField(st, fa.Field); cb != nil {
+					if c, isConst := x.Val.(*ssa.Const); !isConst || c.Value != nil {
+						t.cbRefine(fr, cb, x.Val, "store."+st.Underlying().(*types.Struct).Field(fa.Field).Name(), x.Pos())
+					}
+				}
+			}
+		}
 		if g, ok := x.Addr.(*ssa.Global); ok && t.P.immutable[g] {
 			return // initialisation of an immutable global (only inside init)
 		}
@@ -366,7 +376,25 @@ func (t *Trans) execInstr(fr *Frame, in ssa.Instruction) {
 		}
 		r := t.newObject(fr, fr.name(x)+"env")
 		fr.vals[x] = t.define("Func", fr.name(x), fmt.Sprintf("(fclo %d %s)", t.fnID(fn), r))
-		fr.closures[x] = &closureInfo{fn: fn, bindings: binds}
+		ci := &closureInfo{fn: fn, bindings: binds, finals: map[int]string{}}
+		for i, fv := range fn.FreeVars {
+			if t.P.finalFV[fv] && i < len(x.Bindings) {
+				if pt, ok := fv.Type().(*types.Pointer); ok {
+					if pfv, isFV := x.Bindings[i].(*ssa.FreeVar); isFV {
+						for j, f2 := range fr.fn.FreeVars {
+							if f2 == pfv {
+								if v, ok := fr.fvFinal[j]; ok {
+									ci.finals[i] = v
+								}
+							}
+						}
+						continue
+					}
+					ci.finals[i] = t.define(env.SortOf(pt.Elem()), fr.name(x)+"fv", t.loadFrom(fr, nil, binds[i], pt.Elem(), fr.st))
+				}
+			}
+		}
+		fr.closures[x] = ci
 	case *ssa.Range:
 		t.execRange(fr, x)
 	case *ssa.Next:
@@ -389,7 +417,7 @@ func (t *Trans) execInstr(fr *Frame, in ssa.Instruction) {
 		for i := len(fr.defers) - 1; i >= 0; i-- {
 			d := fr.defers[i]
 			guard, ok := fr.reach[d.block]
-			if !ok {
+			if !ok || !blockReaches(d.block, fr.curBlock) {
 				continue
 			}
 			if fr.loops != nil {
@@ -445,10 +473,27 @@ func (t *Trans) execUnOp(fr *Frame, x *ssa.UnOp) {
 			fr.vals[x] = t.immutableGlobal(g)
 			return
 		}
+		if fv, ok := x.X.(*ssa.FreeVar); ok {
+			for i, f2 := range fr.fn.FreeVars {
+				if f2 == fv {
+					if v, ok := fr.fvFinal[i]; ok {
+						fr.vals[x] = v
+						return
+					}
+				}
+			}
+		}
 		t.safeDeref(fr, x.X, x.Pos())
 		v := t.define(env.SortOf(elem), fr.name(x), t.loadFrom(fr, x.X, fr.val(x.X), elem, fr.st))
 		fr.vals[x] = v
-		t.assume(fr.curReach, t.wfOf(v, elem, fr.st))
+		wfSt := fr.st
+		if !isStructType(elem) {
+			// a value read from a component that was never written since entry existed at entry
+			if comp, _ := t.locOf(fr, x.X, fr.val(x.X), elem); fr.st.get(comp) == comp+"@0" {
+				wfSt = State{}
+			}
+		}
+		t.assume(fr.curReach, t.wfOf(v, elem, wfSt))
 	case token.NOT:
 		fr.vals[x] = t.define("Bool", fr.name(x), "(not "+fr.val(x.X)+")")
 	case token.SUB:
@@ -984,4 +1029,26 @@ func (t *Trans) execNext(fr *Frame, x *ssa.Next) {
 	t.assume(fr.curReach, t.wfOf(v, mt.Elem(), fr.st))
 	fr.st = fr.st.set(c, t.define(env.comps[c], c+"@s", fmt.Sprintf("(ite %s (store %s %s true) %s)", okc, vis, k, vis)))
 	fr.tuples[x] = []string{okc, k, v}
+}
+
+func blockReaches(from, to *ssa.BasicBlock) bool {
+	if from == to {
+		return true
+	}
+	seen := map[*ssa.BasicBlock]bool{from: true}
+	work := []*ssa.BasicBlock{from}
+	for len(work) > 0 {
+		b := work[len(work)-1]
+		work = work[:len(work)-1]
+		for _, s := range b.Succs {
+			if s == to {
+				return true
+			}
+			if !seen[s] {
+				seen[s] = true
+				work = append(work, s)
+			}
+		}
+	}
+	return false
 }
